@@ -34,6 +34,16 @@ Proof. vm_compute. reflexivity. Qed.
 Lemma reason_spam_is_source : gen_reason_spam = reason_spam.
 Proof. vm_compute. reflexivity. Qed.
 
+(* internal/saslerr: the names are the model's table (value = position), the
+   stringer index has one entry more than there are names, and the range checks
+   are the ones the model has: TokenReader writes nothing for ConditionNone and
+   for c >= len-1, String switches to "Condition(n)" at the same bound, and
+   UnmarshalXML tries the conditions 1 .. len-2 *)
+Lemma sasl_tables_are_source :
+  gen_sasl_conditions = sasl_conditions /\ gen_sasl_index_len = (sasl_count + 1)%N /\ gen_sasl_ns = ns_sasl /\
+  gen_sasl_tr_check = (true, 0, 1)%N /\ gen_sasl_string_check = (0, 1)%N /\ gen_sasl_un_loop = (1, 2, 1)%N.
+Proof. repeat split; vm_compute; reflexivity. Qed.
+
 Lemma tables_are_source :
   gen_payload_ns = model_ns /\ (gen_hash_parse = hash_table /\ gen_hash_string = hash_table) /\
   gen_pubsub_conditions = pubsub_conditions /\ gen_form_consts = model_form_consts /\ gen_reason_spam = reason_spam.
